@@ -207,8 +207,33 @@ class Exec(HeapMixin, ExprMixin, CallMixin, StmtMixin):
         if fr is not None and fr.fi is not None:
             c = self.specs.lookup(fr.fi, self.view)
             if c is not None:
-                return c.locals
+                if not c.roles:
+                    return c.locals
+                ren = self.role_names(fr.fi, c)
+                return {ren.get(k, k): v for k, v in c.locals.items()}
         return {}
+
+    def role_names(self, fi, c):
+        """Sidecar name -> actual local name, for locals identified by role ('emptylist#k' / 'emptydict#k': the k-th
+        local initialised with an empty list / dict display, in source order) - survives renaming."""
+        cache = getattr(fi, '_roles', None)
+        if cache is None:
+            lists, dicts = [], []
+            for n in ast.walk(fi.node):
+                if isinstance(n, ast.Assign) and len(n.targets) == 1 and isinstance(n.targets[0], ast.Name):
+                    if isinstance(n.value, ast.List) and not n.value.elts:
+                        lists.append((n.lineno, n.targets[0].id))
+                    if isinstance(n.value, ast.Dict) and not n.value.keys:
+                        dicts.append((n.lineno, n.targets[0].id))
+            cache = dict(emptylist=[x for _, x in sorted(lists)], emptydict=[x for _, x in sorted(dicts)])
+            fi._roles = cache
+        out = {}
+        for name, role in c.roles.items():
+            kind, _, k = role.partition('#')
+            seq = cache.get(kind, [])
+            if int(k) < len(seq):
+                out[name] = seq[int(k)]
+        return out
 
     def used_assumption(self, text):
         self.assumptions_used.add(text)
@@ -635,7 +660,9 @@ class Exec(HeapMixin, ExprMixin, CallMixin, StmtMixin):
             if key == 'alloc' or (isinstance(key, tuple) and key[0] == 'g'):
                 continue
             if isinstance(key, tuple) and len(key) > 1 and key[1] == 'list[cls]':
-                continue        # *args tuples are immutable values; their list model never escapes
+                continue
+            if isinstance(key, tuple) and key[0] == 'f' and key[1] in self.reg.auto_fields:
+                continue        # attribute unknown to every contract: cannot affect a specified observation        # *args tuples are immutable values; their list model never escapes
             b = base.h.get(key)
             if b is None:
                 b = self.ctx.base.get(key)
@@ -673,6 +700,11 @@ class Exec(HeapMixin, ExprMixin, CallMixin, StmtMixin):
         env = dict(self.top_env)
         env.update(self.frame.locals)
         env['old'] = VOld(self.top_env, self.pre_state)
+        c = self.cur
+        if c is not None and c.roles and self.frame.fi is not None:
+            for side, actual in self.role_names(self.frame.fi, c).items():
+                if actual in env and side not in env:
+                    env[side] = env[actual]
         return env
 
     def check_invariant(self, spec, fname, ordn, kind, entry_state):
@@ -715,12 +747,15 @@ class Exec(HeapMixin, ExprMixin, CallMixin, StmtMixin):
                 pass
         env = self.inv_env()
         self.havoc(spec.get('modifies', []) or [], env)
+        # a role-named local that the loop re-binds keeps its sidecar alias in step with the actual name
+
 
     def fresh_like(self, v, name):
         if isinstance(v, VTuple):
             return VTuple([self.fresh_like(x, f'{name}{k}') for k, x in enumerate(v.items)])
         if isinstance(v, VNone):
-            raise Unsupported(f'loop-assigned local {name} is None at loop entry (needs a sidecar local type)')
+            # None-initialised local assigned inside the loop: an opaque optional value
+            return VRef(self.fresh(name, I), ty.ANY)
         if isinstance(v, (VFunc, VRange, VView)):
             return v
         t = self.type_of(v)
